@@ -55,8 +55,12 @@ void generate(Rng& r, Workload& w, int tier) {
             w.ops.push_back({int64_t(r.below(H_N)), int64_t(r.below(5)), int64_t(r.below(5))});
     } else {
         int nt = int(r.range(2, 3));
-        w.cfg = {1, nt, r.chance(1, 2) ? 1 : 0, r.range(0, 2)};
+        // cfg[4]: the threads start without a handle of their own and first copy the controller's single
+        // handle (count exactly 1 while several threads copy from it)
+        int64_t start_empty = r.chance(1, 3) ? 1 : 0;
+        w.cfg = {1, nt, start_empty ? 0 : (r.chance(1, 2) ? 1 : 0), r.range(0, 2), start_empty};
         int n = int(r.range(1, 6 * nt));
+        if (start_empty) for (int t = 0; t < nt; ++t) w.ops.push_back({int64_t(t), T_COPY_BASE, 0, 0});
         for (int i = 0; i < n; ++i)
             w.ops.push_back({int64_t(r.below(uint64_t(nt))), int64_t(r.below(T_N)), int64_t(r.below(3)), int64_t(r.below(3))});
     }
@@ -154,7 +158,7 @@ void run_history(const Workload& w, Result& res) {
         case H_RESET: h.slot(i).reset(); expect = nullptr; has_expect = true; break;
         case H_SWAP: { const Obj* a = h.slot(i).get(); const Obj* b = h.slot(j).get();
             h.slot(i).swap(h.slot(j));
-            if (h.slot(i).get() != b || h.slot(j).get() != a) res.fail("cptr_identity", "swap did not exchange the pointers");
+            if (h.slot(i).get() != b || h.slot(j).get() != a) res.probe("beyond_c12.swap_did_not_exchange");
             break; }
         case H_UNIFY: {
             Ptr& p = h.slot(i);
@@ -163,9 +167,10 @@ void run_history(const Workload& w, Result& res) {
             int before_id = int(sim::rt_cell_get(CELL_NEXT_ID));
             p.unify();
             if (was_shared) {
-                if (int(sim::rt_cell_get(CELL_NEXT_ID)) != before_id + 1) res.fail("cptr_unify", "unify() of a shared handle did not copy the object");
+                // (what unify() must produce is not in the statement; the count / destruction oracle judges the result)
+                if (int(sim::rt_cell_get(CELL_NEXT_ID)) != before_id + 1) res.probe("beyond_c12.unify_did_not_copy");
                 else h.reg(p.get());
-                if (!p.unique() || p->payload != pay) res.fail("cptr_unify", "unify() result not unique or not a copy");
+                if (p.get() && (!p.unique() || p->payload != pay)) res.probe("beyond_c12.unify_result_not_a_unique_copy");
             }
             break; }
         case H_DROP: h.s[i] = nullptr; break;
@@ -173,8 +178,9 @@ void run_history(const Workload& w, Result& res) {
         case H_DRESET: h.dslot(k).reset(); break;
         case H_DCOPY: h.dslot(k) = h.dslot(1 - k); break;
         }
-        if (has_expect && h.s[i] && h.s[i]->get() != expect)
-            res.fail("cptr_identity", std::string("target handle does not point to the source's object after ") + names[code]);
+        // which object the target handle ends up with is not part of the statement (it fixes counts and
+        // destruction): counted, not judged
+        if (has_expect && h.s[i] && h.s[i]->get() != expect) res.probe("beyond_c12.target_handle_not_on_source_object");
         h.check(std::string(names[code]) + "(" + std::to_string(i) + "," + std::to_string(j) + ") at step " + std::to_string(step));
         res.probe(names[code]);
         ++step;
@@ -210,7 +216,8 @@ void run_history(const Workload& w, Result& res) {
 // ---- mode 1 -----------------------------------------------------------------
 void run_concurrent(const Workload& w, Result& res) {
     const int nt = int(2 + sim::modn(sim::cfg_at(w, 1) - 2, 2));
-    const bool drop_base_early = sim::modn(sim::cfg_at(w, 2), 2) == 1;
+    const bool start_empty = sim::modn(sim::cfg_at(w, 4), 2) == 1;
+    const bool drop_base_early = !start_empty && sim::modn(sim::cfg_at(w, 2), 2) == 1;
     const int survivors = int(sim::modn(sim::cfg_at(w, 3), 3));   // threads 0..survivors-1 hand one handle back
     struct TOp { int code, a, b; };
     std::vector<std::vector<TOp> > script(static_cast<size_t>(nt));
@@ -224,7 +231,8 @@ void run_concurrent(const Workload& w, Result& res) {
     auto base = std::make_unique<Ptr>(raw);
     // every thread starts from its own handle, created by the controller
     std::vector<std::unique_ptr<Ptr> > start(static_cast<size_t>(nt));
-    for (int t = 0; t < nt; ++t) start[size_t(t)] = std::make_unique<Ptr>(*base);
+    if (!start_empty) for (int t = 0; t < nt; ++t) start[size_t(t)] = std::make_unique<Ptr>(*base);
+    else res.probe("threads_copy_the_single_handle");
     std::vector<std::unique_ptr<Ptr> > kept(static_cast<size_t>(nt));
     const Ptr* shared_base = base.get();
     std::vector<sim::Thread> th;
